@@ -348,3 +348,314 @@ def su_assembly_tie(rng, deep):
     finally:
         T.quad, T.brentq = saved
     return st
+
+
+# =====================================================================================
+# C19  2-D steady Riemann problem
+# =====================================================================================
+R2E = 'exactpack.solvers.riemann2D_2section_steadystate.ep_riemann2D_2section_steadystate:IGEOS_Solver'
+R2M = 'exactpack.solvers.riemann2D_2section_steadystate.riemann2D_2section_steadystate'
+R2_PRESETS = [
+    ([1., 1., 2.4, 0., 1.4], [0.25, 0.5, 7.0, 0., 1.4]),          # the documented default (Hui 1999, fig. 3): R-C-S
+    ([0.25, 0.5, 7.0, 0., 1.4], [1., 1., 2.4, 0., 1.4]),          # its mirror image: S-C-R
+    ([1., 1., 3.0, 0., 1.4], [1.5, 1.2, 2.0, 0., 1.4]),
+    ([1., 1., 2.0, 0., 1.4], [0.5, 0.7, 3.0, 0., 1.67]),
+    ([2., 1., 2.5, 0., 1.3], [1., 0.8, 4.0, 0., 1.4]),
+]
+
+
+def _r2_case(rng, angles=False):
+    b, t = [list(s) for s in rng.choice(R2_PRESETS)]
+    if rng.random() < 0.6:
+        for s in (b, t):
+            s[0] *= rng.uniform(0.7, 1.4)
+            s[1] *= rng.uniform(0.7, 1.4)
+            s[2] = max(1.3, s[2] * rng.uniform(0.8, 1.25))
+            s[4] = rng.choice([s[4], 1.4, 5. / 3., rng.uniform(1.15, 1.7)])
+    if angles and rng.random() < 0.5:
+        a = rng.uniform(-8., 8.)
+        b[3], t[3] = a + rng.uniform(0., 6.), a - rng.uniform(0., 6.)     # converging or parallel streams
+    return dict(bottom=b, top=t, polar=sorted(rng.uniform(-1.3, 1.3) for _ in range(8)), frac=[rng.random() for _ in range(4)])
+
+
+_R2_CACHE = {}
+
+
+def _r2_solve(c):
+    """real public solver on points of the unit circle (polar angles c['polar'] plus points inside every fan)"""
+    key = json.dumps([c['bottom'], c['top'], c['polar'], c['frac']])
+    if key in _R2_CACHE:
+        return _R2_CACHE[key]
+    _, C = O.load(R2E)
+    res = None
+    try:
+        with warnings.catch_warnings():
+            warnings.simplefilter('ignore')
+            s = C(bottom_state=list(c['bottom']), top_state=list(c['top']))
+            th = list(c['polar'])
+            s(np.array([[1.0, 0.0]]), 0.25)
+            for k in ('BR', 'TR'):
+                if k in s.angles:
+                    lo, hi = float(min(s.angles[k])), float(max(s.angles[k]))
+                    th += [lo + f * (hi - lo) for f in c['frac']]
+            pts = np.array([[math.cos(a), math.sin(a)] for a in th])
+            sol = s(pts, 0.25)
+            res = (s, sol, th)
+    except Exception:
+        res = None
+    if len(_R2_CACHE) > 200:
+        _R2_CACHE.clear()
+    _R2_CACHE[key] = res
+    return res
+
+
+def _r2_consistency_check(c):
+    r = _r2_solve(c)
+    if r is None:
+        return None
+    s, sol, th = r
+    gB, gT = c['bottom'][4], c['top'][4]
+    for i in range(len(th)):
+        p, rho, e, M, u, v, q = (float(sol[n][i]) for n in ('pressure', 'density', 'specific_internal_energy', 'Mach',
+                                                             'x_velocity', 'y_velocity', 'speed'))
+        if not all(map(math.isfinite, (p, rho, e, M, u, v, q))):
+            continue
+        ok = False
+        for g in (gB, gT):
+            if O.relerr(u * u + v * v, g * p / rho * M * M) < 1e-9 and O.relerr(e, p / rho / (g - 1)) < 1e-9:
+                ok = True
+        if not ok:
+            return dict(site='Riemann2D:components', detail='polar %r: p=%r rho=%r e=%r M=%r u=%r v=%r' % (th[i], p, rho, e, M, u, v))
+        if O.relerr(q * q, u * u + v * v) > 1e-9:
+            return dict(site='Riemann2D:speed', detail='polar %r: speed=%r u=%r v=%r' % (th[i], q, u, v))
+    return None
+
+
+r2_consistency = O.make(lambda rng: _r2_case(rng, True), _r2_consistency_check, 'c19.riemann2d.consistency')
+
+
+def _r2_slipline_check(c):
+    r = _r2_solve(c)
+    if r is None:
+        return None
+    s = r[0]
+    pb, rb, Mb, ub, vb = (float(x) for x in s.bottom_star_vals)
+    pt, rt, Mt, ut, vt = (float(x) for x in s.top_star_vals)
+    if not all(map(math.isfinite, (pb, pt, ub, vb, ut, vt))):
+        return None
+    if O.relerr(pb, pt) > 1e-9:
+        return dict(site='Riemann2D:slip-line-pressure', detail='p* bottom %r top %r' % (pb, pt))
+    ab, at = math.atan2(vb, ub), math.atan2(vt, ut)
+    if abs(ab - at) > 1e-9 or abs(ab - float(s.deflection_angle_solution)) > 1e-9:
+        return dict(site='Riemann2D:slip-line-direction', detail='flow angle bottom %r top %r, reported %r' % (ab, at, s.deflection_angle_solution))
+    # the star states on either side of the slip line are what the public call returns next to it
+    cd = float(s.deflection_angle_solution)
+    try:
+        sol = s(np.array([[math.cos(cd - 1e-6), math.sin(cd - 1e-6)], [math.cos(cd + 1e-6), math.sin(cd + 1e-6)]]), 0.25)
+    except Exception:
+        return None
+    if O.relerr(float(sol.pressure[0]), float(sol.pressure[1])) > 1e-9:
+        return dict(site='Riemann2D:slip-line-pressure', detail='returned pressure just below / above the slip line: %r / %r' % (sol.pressure[0], sol.pressure[1]))
+    a0, a1 = (math.atan2(float(sol.y_velocity[i]), float(sol.x_velocity[i])) for i in (0, 1))
+    if abs(a0 - a1) > 1e-9:
+        return dict(site='Riemann2D:slip-line-direction', detail='returned flow angle just below / above the slip line: %r / %r' % (a0, a1))
+    return None
+
+
+r2_slipline = O.make(lambda rng: _r2_case(rng, True), _r2_slipline_check, 'c19.riemann2d.slipline')
+
+
+def _oblique(g, M0, alpha):
+    """textbook oblique shock for pressure ratio alpha: (density ratio, downstream Mach, turning angle)"""
+    mn2 = ((g + 1) * alpha + (g - 1)) / (2 * g)             # normal Mach number squared
+    if mn2 > M0 * M0 or mn2 < 0:
+        return None
+    beta = math.asin(math.sqrt(mn2) / M0)
+    rr = (g + 1) * mn2 / ((g - 1) * mn2 + 2)
+    delta = beta - math.atan(math.tan(beta) / rr)
+    mn1_2 = (1 + (g - 1) / 2 * mn2) / (g * mn2 - (g - 1) / 2)
+    return rr, math.sqrt(mn1_2) / math.sin(beta - delta), delta
+
+
+def _r2_shock_check(c):
+    r = _r2_solve(c)
+    if r is None:
+        return None
+    s = r[0]
+    cd, ps = float(s.deflection_angle_solution), float(s.pressure_solution)
+    for side, st, star, k in (('bottom', c['bottom'], s.bottom_star_vals, 0), ('top', c['top'], s.top_star_vals, 4)):
+        if s.morphology[k] != 'S':
+            continue
+        p0, r0, M0, th0, g = st
+        w = _oblique(g, M0, ps / p0)
+        if w is None:
+            continue
+        rr, M1, delta = w
+        turn = abs(cd - th0 / 180. * math.pi)
+        if O.relerr(float(star[1]) / r0, rr) > 1e-8 or O.relerr(float(star[2]), M1) > 1e-8:
+            return dict(site='Riemann2D:oblique-shock-state', detail='%s: density ratio %r (RH %r), Mach %r (RH %r)' % (side, float(star[1]) / r0, rr, float(star[2]), M1))
+        if abs(turn - abs(delta)) > 1e-7:
+            return dict(site='Riemann2D:oblique-shock-turning', detail='%s: flow turned by %r, shock of that strength turns by %r' % (side, turn, delta))
+    return None
+
+
+r2_shock = O.make(lambda rng: _r2_case(rng, True), _r2_shock_check, 'c19.riemann2d.shock')
+
+
+def _nu(g, M):
+    """the Prandtl-Meyer function"""
+    m = math.sqrt((g + 1) / (g - 1))
+    return m * math.atan(math.sqrt(M * M - 1) / m) - math.atan(math.sqrt(M * M - 1))
+
+
+def _r2_isentrope_check(c):
+    """states reported inside a fan and behind it lie on the isentrope of the upstream state with its total enthalpy"""
+    r = _r2_solve(c)
+    if r is None:
+        return None
+    s, sol, th = r
+    for k, st, key in ((0, c['bottom'], 'BR'), (4, c['top'], 'TR')):
+        if s.morphology[k] != 'R':
+            continue
+        p0, r0, M0, th0, g = st
+        lo, hi = float(min(s.angles[key])), float(max(s.angles[key]))
+        cdlo, cdhi = (hi, float(s.angles['CD'])) if key == 'BR' else (float(s.angles['CD']), lo)
+        for i, a in enumerate(th):
+            if not (lo < a < hi or cdlo < a < cdhi):
+                continue
+            p, rho, M = float(sol.pressure[i]), float(sol.density[i]), float(sol.Mach[i])
+            if not all(map(math.isfinite, (p, rho, M))):
+                continue
+            if O.relerr(p / rho ** g, p0 / r0 ** g) > 1e-8:
+                return dict(site='Riemann2D:fan-isentrope', detail='polar %r: p/rho^g = %r, upstream %r' % (a, p / rho ** g, p0 / r0 ** g))
+            h, h0 = g * p / rho * (1 / (g - 1) + M * M / 2), g * p0 / r0 * (1 / (g - 1) + M0 * M0 / 2)
+            if O.relerr(h, h0) > 1e-8:
+                return dict(site='Riemann2D:fan-total-enthalpy', detail='polar %r: %r, upstream %r' % (a, h, h0))
+    return None
+
+
+r2_isentrope = O.make(lambda rng: _r2_case(rng, True), _r2_isentrope_check, 'c19.riemann2d.isentrope')
+
+
+def _r2_turning_check(c):
+    """FINDING reproduction: the flow behind a fan is turned by nu(M0) - nu(M*) of the Prandtl-Meyer function"""
+    r = _r2_solve(c)
+    if r is None:
+        return None
+    s = r[0]
+    cd = float(s.deflection_angle_solution)
+    for k, st, star in ((0, c['bottom'], s.bottom_star_vals), (4, c['top'], s.top_star_vals)):
+        if s.morphology[k] != 'R':
+            continue
+        p0, r0, M0, th0, g = st
+        turn = abs(cd - th0 / 180. * math.pi)
+        want = abs(_nu(g, float(star[2])) - _nu(g, M0))
+        if abs(turn - want) > 1e-7:
+            return dict(site='Riemann2D:fan-turning',
+                        detail='%s fan: flow turned by %r, Prandtl-Meyer nu(M*) - nu(M0) = %r (M0=%r, M*=%r)' % ('bottom' if k == 0 else 'top', turn, want, M0, float(star[2])))
+    return None
+
+
+r2_turning = O.make(lambda rng: _r2_case(rng, True), _r2_turning_check, 'c19.riemann2d.fan_turning')
+
+
+def _r2_pm_check(c):
+    """FINDING reproduction: PrandtlMeyer_function(M, g) is the Prandtl-Meyer function"""
+    M = importlib.import_module(R2M)
+    prob = object.__new__(M.SetupRiemannProblem)
+    got, want = float(prob.PrandtlMeyer_function(c['M'], c['g'])), _nu(c['g'], c['M'])
+    if abs(got - want) > 1e-9:
+        return dict(site='Riemann2D:PrandtlMeyer', detail='PrandtlMeyer_function(M=%r, g=%r) = %r, nu = %r' % (c['M'], c['g'], got, want))
+    return None
+
+
+r2_pm = O.make(lambda rng: dict(M=rng.choice([2.0, rng.uniform(1.05, 8.0)]), g=rng.choice([1.4, rng.uniform(1.1, 1.7)])),
+               _r2_pm_check, 'c19.riemann2d.prandtl_meyer')
+
+
+def _r2_pattern_check(c):
+    """a side labelled S is compressed (p* >= p0), a side labelled R is expanded (p* <= p0)"""
+    r = _r2_solve(c)
+    if r is None:
+        return None
+    s = r[0]
+    ps = float(s.pressure_solution)
+    for k, st in ((0, c['bottom']), (4, c['top'])):
+        p0 = st[0]
+        if (s.morphology[k] == 'S' and ps < p0 * (1 - 1e-9)) or (s.morphology[k] == 'R' and ps > p0 * (1 + 1e-9)):
+            return dict(site='Riemann2D:pattern', detail='%s side labelled %s but p* = %r, p0 = %r (pattern %s)'
+                        % ('bottom' if k == 0 else 'top', s.morphology[k], ps, p0, s.morphology))
+    return None
+
+
+def _r2_case_any(rng):
+    c = _r2_case(rng, True)
+    if rng.random() < 0.4:          # also diverging streams
+        c['bottom'][3], c['top'][3] = c['bottom'][3] - rng.uniform(0., 10.), c['top'][3] + rng.uniform(0., 10.)
+    return c
+
+
+r2_pattern = O.make(_r2_case_any, _r2_pattern_check, 'c19.riemann2d.pattern')
+
+
+def r2_func_tie(name):
+    from py2lean.targets.t_rad import R2_FUNCS, R2_STATE
+    fn, outs = R2_FUNCS[name]
+
+    def tie(rng, deep):
+        M = importlib.import_module(R2M)
+        prob = object.__new__(M.SetupRiemannProblem)
+        cases = []
+        for i in range(300 if deep else 60):
+            if name == 'R2PM':
+                cases.append(dict(Ms=rng.uniform(1.0, 9.0), g=rng.uniform(1.05, 3.0)))
+                continue
+            p0 = rng.uniform(0.2, 3.0)
+            cases.append(dict(p0=p0, r0=rng.uniform(0.2, 3.0), M0=rng.uniform(1.05, 8.0), theta0=rng.uniform(-30., 30.),
+                              g=rng.uniform(1.05, 3.0),
+                              ps=p0 * (rng.uniform(1.0, 6.0) if name == 'R2Comp' else rng.uniform(0.01, 1.0))))
+
+        def real(c):
+            if name == 'R2PM':
+                return [prob.PrandtlMeyer_function(c['Ms'], c['g'])]
+            return list(getattr(prob, fn)(c['ps'], [c[k] for k in R2_STATE]))
+        return twin_tie(name, cases, real, rtol=1e-9)
+    return tie
+
+
+def r2_solver_tie(rng, deep):
+    """Float twins of the solver-level models (R2d<pattern>, R2Star<pattern>) against the real public call; the atoms
+    (p_star, cd_angle, shock angles, the pressure inside a fan) are read off the real solver / its output"""
+    from py2lean.targets.t_rad import R2_BOTTOM, R2_TOP
+    tot = dict(evaluations=0, distinct_nontrivial=0, mismatches=[], samples=[])
+    by_model = {}
+    for i in range(40 if deep else 8):
+        c = _r2_case(rng, True)
+        r = _r2_solve(c)
+        if r is None:
+            continue
+        s, sol, th = r
+        tag = s.morphology.replace('-', '')
+        base = dict(zip(R2_BOTTOM, c['bottom']))
+        base.update(zip(R2_TOP, c['top']))
+        base.update(p_star=float(s.pressure_solution), cd_angle=float(s.deflection_angle_solution))
+        if 'BS' in s.angles:
+            base['beta_B'] = float(s.angles['BS'])
+        if 'TS' in s.angles:
+            base['beta_T'] = float(s.angles['TS'])
+        star = dict(base)
+        by_model.setdefault('R2Star' + tag, []).append((star, [float(x) for x in list(s.bottom_star_vals) + list(s.top_star_vals)]))
+        for j, a in enumerate(th):
+            d = dict(base, x=math.cos(a), y=math.sin(a))
+            # inside a fan the code solves for the pressure: take the value it found (the returned pressure)
+            d['p_fanB'] = d['p_fanT'] = float(sol.pressure[j])
+            by_model.setdefault('R2d' + tag, []).append((d, [float(sol[n][j]) for n in sol.dtype.names]))
+    for name, items in by_model.items():
+        cases = [it[0] for it in items]
+        want = {json.dumps(it[0], sort_keys=True): it[1] for it in items}
+        st = twin_tie(name, cases, lambda c: want[json.dumps(c, sort_keys=True)], rtol=1e-9)
+        tot['evaluations'] += st['evaluations']
+        tot['distinct_nontrivial'] += st['distinct_nontrivial']
+        tot['mismatches'] += st['mismatches']
+        tot['samples'] += st['samples'][:1]
+    return tot
